@@ -612,6 +612,48 @@ pub fn run(tier: Tier) -> i32 {
             }
         }
     }
+    // ---- the command-line program itself (release and dev builds; the sweeps above run on 64 MB worker
+    //      stacks): every nesting family at the largest depth of the property's bound, one file per construct
+    if let Some(bin) = crate::binx::bin_path() {
+        let root = crate::report::scratch_dir("c04bin");
+        let proj = root.join("proj");
+        let cwd = root.join("cwd");
+        std::fs::create_dir_all(&proj).unwrap();
+        std::fs::create_dir_all(&cwd).unwrap();
+        let mut k = 0usize;
+        for (label, text) in nesting_texts(Tier::Quick) {
+            if label.ends_with(":64") || label.ends_with(":63") {
+                k += 1;
+                std::fs::write(proj.join(format!("N{:03}.sol", k)), &text).unwrap();
+            }
+        }
+        run.add("binary_nesting_files", k as u64);
+        // both build profiles of the program: release, and dev (overflow checks on, unoptimised: much larger stack frames)
+        let mut bins: Vec<(&str, String)> = vec![("release", bin.clone())];
+        match std::env::var("SOLSTAT_DEV_BIN") {
+            Ok(d) if std::path::Path::new(&d).exists() => bins.push(("dev", d)),
+            _ => run.machinery("SOLSTAT_DEV_BIN (dev-profile binary) not found".into()),
+        }
+        for (profile, b) in bins {
+            let _ = std::fs::remove_file(cwd.join("solstat_report.md"));
+            let out = crate::binx::run_bin(&b, &cwd, &["--path", proj.to_str().unwrap()]);
+            let rep = cwd.join("solstat_report.md").exists();
+            if !crate::binx::completed(out.code) || !rep {
+                run.violation(Violation {
+                    site: format!("binary:{}:nesting-64:abort", profile),
+                    input: format!("{} files with constructs nested 63 / 64 deep (the nesting family), {} build of the command-line program", k, profile),
+                    expected: "the command-line program completes and writes its report".into(),
+                    observed: format!("exit {:?}, report written: {}, stderr: {}", out.code, rep, out.stderr),
+                    size: k,
+                    unit_test: String::new(),
+                    extra: json!({}),
+                });
+            }
+        }
+        let _ = std::fs::remove_dir_all(&root);
+    } else {
+        run.machinery("SOLSTAT_BIN (unhooked binary) not found".into());
+    }
     for (l, t) in totality_texts(Tier::Quick).into_iter().step_by(400).take(4) {
         samples.push(json!({"label": l, "text": t}));
     }
@@ -623,6 +665,7 @@ pub fn run(tier: Tier) -> i32 {
     run.set("rule", "states = parser-accepted programs (Σ families + totality alphabets: literals x operand positions, argument-less calls, pragma placements/shapes, declaration shapes, counts, nesting 1..64), summed over the two build profiles; transitions = detector calls under catch_unwind / child-process exit status; non-trivial = distinct (detector, result) outcomes");
     run.set("samples", json!(samples));
     run.set("bound_completed", if tier == Tier::Quick { "Σ quick; counts {0,1,2,3,127,128,255,256,257,300}; nesting {1,2,8,32,63,64}" } else { "Σ thorough; counts 0..300; nesting 1..64" });
+    run.assume("the detector sweeps run on 64 MB thread stacks; the command-line program (release and dev profile) is exercised on the deepest nesting family only");
     run.assume("programs the parser rejects are outside the property's quantifier and are skipped (counted in totality_rejected_by_parser)");
     run.finish()
 }
